@@ -331,12 +331,16 @@ class ExecSuite(PipeSuite):
                  ("funnel plans (joined groups) under overlap/jitter", ["--gen", "funnel", "--count", "40", "--seed", s], {})]
             if kf1:
                 g.append(("thread-locals inside batches", ["--gen", "kf1", "--count", "25", "--seed", s], {}))
+            if sspec.get("nopar") and os.path.exists(C.harness_bin(False, False)):
+                g.append(("random schedules, crate built without the `parallel` feature", ["--gen", "random", "--count", "60", "--seed", s], {"parallel": False}))
         elif tier == "thorough":
             g = [("random schedules (free/hold/overlap/jitter)", ["--gen", "random", "--count", "4000", "--seed", s], {}),
                  ("fault injection", ["--gen", "faults", "--count", "1500", "--seed", s], {}),
                  ("funnel plans (joined groups) under overlap/jitter", ["--gen", "funnel", "--count", "1500", "--seed", s], {})]
             if kf1:
                 g.append(("thread-locals inside batches", ["--gen", "kf1", "--count", "500", "--seed", s], {}))
+            if sspec.get("nopar") and os.path.exists(C.harness_bin(False, False)):
+                g.append(("random schedules, crate built without the `parallel` feature", ["--gen", "random", "--count", "1500", "--seed", s], {"parallel": False}))
         else:
             g = [("search:random", ["--gen", "random", "--count", "500", "--seed", s], {}),
                  ("search:faults", ["--gen", "faults", "--count", "200", "--seed", s], {}),
